@@ -239,4 +239,38 @@ def formatFuel (fuel : Nat) (o : Opts) (src : Bytes) : Option Bytes :=
 /-- `FormatBytes(nil, src, opts)`. -/
 def format (o : Opts) (src : Bytes) : Bytes := (formatFuel (src.length + 1) o src).getD []
 
+/-! ### ghost definitions (not in the Go code): lexical closedness as the indenter sees it -/
+
+/-- ghost: every raw search of this line's scan found its end quote -/
+def codeLineClosed (st : St) (line tail : Bytes) : Bool :=
+  let line1 := line.drop (closeBracesOf line)
+  match scan (line1.length + tail.length + 1) (nBracesAtLineStart st line) st.nParens (lastNonWs line1) true [] [] line1 tail with
+  | some r => r.closed
+  | none => true
+
+/-- ghost: every raw search of the run found its end quote (the text is lexically closed as far
+as raw strings and slash-star comments go; an unterminated "…" or '…' just ends with its line) -/
+def loopClosed (o : Opts) (ii : Nat) : Nat → St → Bytes → Bool
+  | 0, _, _ => true
+  | f + 1, st, src0 =>
+    if src0.isEmpty then true else
+    let lt := splitLine (trimLeadingWs src0)
+    match lt.1 with
+    | [] => loopClosed o ii f { st with nBlank := st.nBlank + 1 } (lt.2.drop 1)
+    | c0 :: l =>
+      if st.preproc || c0 == HASH then loopClosed o ii f (preprocLine o ii st (c0 :: l)).2 (lt.2.drop 1)
+      else
+        match codeLine o ii st (c0 :: l) lt.2 with
+        | none => true
+        | some x => codeLineClosed st (c0 :: l) lt.2 && loopClosed o ii f x.2.1 (x.2.2.drop 1)
+
+def st0 : St := ⟨0, 0, 0, false, false⟩
+
+
+/-- Lexical closedness as the indenter sees it: during `format o s`, every search for the end
+of a raw string (back-tick) or of a slash-star comment finds it.  (Ghost flag of the model;
+unterminated "…" / '…' need no hypothesis.) -/
+def lexClosed (o : Opts) (s : Bytes) : Bool :=
+  loopClosed o (countInitial o.indentByte s) (s.length + 1) st0 (trimLeadingWsNl s)
+
 end WuffsVerif.Indent
